@@ -139,16 +139,22 @@ def check_length(cfg):
 
 def check_before(cfg):
     out = {}
-    for name in ("recovery_factor", "recovery_factor_interpolator"):
+    for name in ("recovery_factor", "recovery_factor_interpolator", "recovery_factor(time)", "recovery_factor(time, density=True)"):
         r = make(cfg)
         try:
-            getattr(r, name)()
+            if name == "recovery_factor(time)":
+                r.recovery_factor(np.linspace(0.0, 1.0, 5))
+            elif name == "recovery_factor(time, density=True)":
+                r.recovery_factor(np.linspace(0.0, 1.0, 5), density=True)
+            else:
+                getattr(r, name)()
             out[name] = "returned"
         except RuntimeError:
             out[name] = "RuntimeError"
         except Exception as e:  # noqa: BLE001
             out[name] = type(e).__name__
-    return all(v == "RuntimeError" for v in out.values()), out
+    # RuntimeError for the argument-free calls; with a time argument any error (a normal return is the failure)
+    return all((v == "RuntimeError") if "(" not in k_ else (v != "returned") for k_, v in out.items()), out
 
 
 def check_interp(cfg):
